@@ -122,7 +122,11 @@ def abs_apply(a, st):
         # keys repeat: everything that looks keys up refuses loudly
         return a.clone(elems=e, n=a.n * r, keys=False, items=False)
     if op == 'cycle':
-        if not a.sized or not a.n:
+        if a.sized:
+            if not a.n:
+                return None
+        elif not a.elems:
+            # without a length the input must be known to be non-empty
             return None
         return a.clone(elems=None, n=None, sized=False, findexable=False)
     if op == 'apply':
@@ -142,6 +146,18 @@ def abs_apply(a, st):
         b = abs_source({'kind': st.get('kind', 'list'), 'n': st['n']},
                        st.get('offset', 100))
         e = None if a.elems is None else a.elems + b.elems
+        return a.clone(elems=e, n=a.n + b.n,
+                       items=a.items and b.items, keys=a.keys and b.keys)
+    if op == 'intersperse':
+        if not a.sized or not a.n or not st['n']:
+            return None
+        b = abs_source({'kind': st.get('kind', 'list'), 'n': st['n']},
+                       st.get('offset', 100))
+        e = None
+        if a.elems is not None:
+            order = sorted([((i + 1) / ln, d, i) for d, ln in enumerate((a.n, b.n))
+                            for i in range(ln)])
+            e = [(a.elems, b.elems)[d][i] for _, d, i in order]
         return a.clone(elems=e, n=a.n + b.n,
                        items=a.items and b.items, keys=a.keys and b.keys)
     if op == 'zip':
@@ -208,7 +224,7 @@ def _rand_slice(rng, n):
 def gen_upstream_stage(rng, a, sid, single_path):
     """Propose one upstream stage for abstract input a (may be invalid)."""
     ops = ['map', 'map', 'slice', 'batch', 'items', 'shuffle', 'sort', 'cache',
-           'concat', 'zip', 'filter_eager', 'reshuffle']
+           'concat', 'zip', 'filter_eager', 'reshuffle', 'intersperse']
     if single_path:
         ops += ['filter_lazy', 'local_shuffle', 'fragment_unbatch']
     op = rng.choice(ops)
@@ -235,6 +251,10 @@ def gen_upstream_stage(rng, a, sid, single_path):
         return [{'op': 'cache'}]
     if op == 'concat':
         return [{'op': 'concat', 'n': rng.randrange(1, 4),
+                 'kind': 'dict' if a.keys else 'list', 'offset': 100,
+                 'map': sid if rng.random() < 0.5 else None}]
+    if op == 'intersperse':
+        return [{'op': 'intersperse', 'n': rng.choice([n, n, 1, 2, 3]) or 1,
                  'kind': 'dict' if a.keys else 'list', 'offset': 100,
                  'map': sid if rng.random() < 0.5 else None}]
     if op == 'zip':
@@ -327,7 +347,7 @@ def gen_desc(rng, *, max_n=8, min_n=0, max_up=3, max_down=2, par_kw=None,
                 for st in sts:
                     # every concatenated / zipped partner gets its own id (and
                     # key) range: duplicate keys are a loud refusal of keys()
-                    if st['op'] in ('concat', 'zip'):
+                    if st['op'] in ('concat', 'zip', 'intersperse'):
                         st['offset'] = 100 * (j + 1) + (50 if st['op'] == 'zip' else 0)
                 b = a
                 for st in sts:
